@@ -1,8 +1,11 @@
 package worlds
 
 import (
+	"bytes"
 	"encoding/json"
+	"errors"
 	"fmt"
+	"io"
 
 	"gitlab.com/gomidi/midi/v2/smf"
 
@@ -56,6 +59,16 @@ func (s *ForeignRead) Run(env *core.Env, st *core.Stats) (vs []core.Violation) {
 		st.Sample(s)
 	}
 	ro := readBytes(data, false)
+	// sources differ in what else they implement: a plain reader, a seekable one (file,
+	// bytes.Reader), and one that has a Seek method that fails at run time (a pipe opened
+	// as *os.File). The decoding must not depend on it.
+	for i, alt := range []readOutcome{readPlain(data), readFrom(&pipeLike{r: bytes.NewReader(data)}, len(data), false)} {
+		if outcomeSig(alt) != outcomeSig(ro) {
+			kind := []string{"plain-reader", "seek-fails"}[i]
+			vs = append(vs, core.V("decode", "source-kind:"+kind, "decoding depends on the kind of source: bytes.Reader gives %s, %s source gives %s; file %s", describeOutcome(ro), kind, describeOutcome(alt), core.Trunc(core.HexStr(data), 300)))
+			return vs
+		}
+	}
 	switch ro.kind() {
 	case "panic", "timeout":
 		vs = append(vs, core.V("panic", panicKey(ro.call.panicMsg), "ReadFrom: %s (%s) file=%s", ro.call.panicMsg, ro.kind(), core.Trunc(core.HexStr(data), 300)))
@@ -315,3 +328,13 @@ func (s *FragRead) Run(env *core.Env, st *core.Stats) (vs []core.Violation) {
 }
 
 var _ = smf.ErrMissing
+
+// pipeLike has a Seek method that always fails, like an *os.File that is a pipe.
+type pipeLike struct{ r io.Reader }
+
+func (p *pipeLike) Read(b []byte) (int, error) { return p.r.Read(b) }
+func (p *pipeLike) Seek(int64, int) (int64, error) {
+	return 0, errors.New("seek: illegal seek")
+}
+
+func readPlain(data []byte) readOutcome { return readUnseekable(data, false) }
